@@ -2971,6 +2971,18 @@ impl Block {
             }
 
             //
+            // block id
+            //
+            if self.id != previous_block.id + 1 {
+                error!(
+                    "ERROR 820390: block id does not validate: {} expected versus {} found",
+                    previous_block.id + 1,
+                    self.id,
+                );
+                return false;
+            }
+
+            //
             // treasury
             //
             let mut expected_treasury = previous_block.treasury;
